@@ -167,21 +167,26 @@ theorem setState_same (x : Stream) (st' : State) (h : x.state.isClosed = true â†
 
 open Lean Elab Tactic Meta in
 /-- the head function of the target state of an `Ext` goal, looking through `.1`/`.2` -/
-partial def extHeadOf (e : Expr) : Option Expr :=
-  match e with
-  | .proj _ _ b => extHeadOf b
-  | .mdata _ b => extHeadOf b
-  | _ =>
-    let f := e.getAppFn
-    match f with
-    | .const n _ =>
-      if n == ``Prod.fst || n == ``Prod.snd then
-        match e.getAppArgs.back? with
-        | some a => extHeadOf a
-        | none => none
-      else some f
-    | .fvar _ => if e.isFVar then some f else none
-    | _ => none
+def extHeadOfAux : Nat â†’ Expr â†’ Option Expr
+  | 0, _ => none
+  | fuel + 1, e =>
+    match e with
+    | .proj _ _ b => extHeadOfAux fuel b
+    | .mdata _ b => extHeadOfAux fuel b
+    | _ =>
+      let f := e.getAppFn
+      match f with
+      | .const n _ =>
+        if n == ``Prod.fst || n == ``Prod.snd then
+          match e.getAppArgs.back? with
+          | some a => extHeadOfAux fuel a
+          | none => none
+        else some f
+      | .fvar _ => if e.isFVar then some f else none
+      | _ => none
+
+open Lean Elab Tactic Meta in
+def extHeadOf (e : Expr) : Option Expr := extHeadOfAux 16 e
 
 open Lean Elab Tactic Meta in
 /-- One step on a goal `Ext s0 t`, chosen by looking at the head of `t` only (no search):
